@@ -6,8 +6,9 @@ from . import c_state            # noqa: F401
 from . import c_parser           # noqa: F401
 try:
     from . import l_parser       # noqa: F401  (lemmas need z3; absent on the replay side)
+    HAVE_Z3 = True
 except ImportError:
-    pass
+    HAVE_Z3 = False
 from . import spec_smf           # noqa: F401
 from . import c_meta             # noqa: F401
 from . import c_frozen           # noqa: F401
@@ -15,3 +16,6 @@ from . import c_charset          # noqa: F401
 from . import b_charset          # noqa: F401
 from . import c_strings          # noqa: F401
 from . import b_strings          # noqa: F401
+from . import c_tracks           # noqa: F401
+if HAVE_Z3:
+    from . import l_tracks       # noqa: F401
